@@ -333,6 +333,8 @@ func RunExpr(ctx *Task, node *ast.Node) *errchain.PlError {
 
 	// TODO
 	case ast.TypeAttrExpr:
+		// yields no value: leave nothing of an earlier expression behind
+		ctx.Regs.Reset()
 		return nil
 
 	case ast.TypeBoolLiteral:
@@ -1046,6 +1048,9 @@ func changeListOrMapValue(ctx *Task, obj any, index []*ast.Node, val V) *errchai
 }
 
 func RunCallExpr(ctx *Task, expr *ast.CallExpr) *errchain.PlError {
+	// a function that returns nothing must leave the register empty,
+	// not holding the value of an earlier expression
+	ctx.Regs.Reset()
 	if funcCall, ok := ctx.GetFn(expr.Name); ok {
 		if err := funcCall(ctx, expr); err != nil {
 			return err
